@@ -105,6 +105,11 @@ func init() {
 	// ghost: every element of t is an independent fresh draw from U[l,u) / N(mu, sigma) (C18; the law itself is assumed)
 	registerDomain("drawnU", []string{"T", "Real", "Real"}, "Bool", "")
 	registerDomain("drawnN", []string{"T", "Real", "Real"}, "Bool", "")
+	// element generators (DESIGN.md 3.3): genAt(f, J) is the element the generator f yields at abstract index J, over the
+	// enumeration shape genShape(f) of rank genRank(f)
+	registerDomain("genAt", []string{"Fn", idxSort}, "Data", "")
+	registerDomain("genRank", []string{"Fn"}, "Int", "")
+	registerDomain("genShape", []string{"Fn"}, idxSort, "")
 	// ghost: the tensor that owns a gradient context (contexts are never shared)
 	registerDomain("ownerOf", []string{"R_GradContext"}, "T", "")
 	// ghost: source / target tensor of a back-edge closure
